@@ -11,6 +11,7 @@ Oracle:   (independent of the model) on the implementation's lines only: bytes a
           cleared ++ rxbs == bytes returned by recv so far; wire-log rx records concatenate to the same.
 """
 import itertools, errno
+from collections import deque
 import core
 from props import _wa_doubles as D
 
@@ -131,11 +132,18 @@ class RealFd(RealMixin, D.Script):
     pass
 
 
+def supplied_or(rig, name):
+    return rig.supplied.get(name, getattr(rig.t, name))
+
+
 class Rig:
     """one transport of the given kind over a scripted double"""
 
-    def __init__(self, kind, wlog, bs, script=None, ptype=0):
+    def __init__(self, kind, wlog, bs, script=None, ptype=0, own=0):
         self.ptype = ptype
+        # own=1: the caller supplies the buffers (Client(txes=..., rxbs=...), as TcpClientStack and the http layer do)
+        supplied = dict(txes=deque(), rxbs=bytearray()) if own and kind in CLIENTS else {}
+        self.supplied = supplied
         from ioflo.aio.tcp import clienting, serving
         from ioflo.aio.serial import serialing
         from ioflo.aio import wiring
@@ -167,15 +175,22 @@ class Rig:
                 self.t = serving.IncomerTls(context=D.Ctx(), ha=("127.0.0.1", 5000), bs=bs, ca=("10.0.0.2", 4000),
                                             cs=self.script, wlog=self.wl, store=store)
             elif kind == "client":
-                self.t = clienting.Client(ha=("127.0.0.1", 5001), bufsize=bs, wlog=self.wl, store=store)
+                self.t = clienting.Client(ha=("127.0.0.1", 5001), bufsize=bs, wlog=self.wl, store=store, **supplied)
                 self.t.cs = self.script
                 self.t.accepted = True
             else:
                 self.t = clienting.ClientTls(context=D.Ctx(), ha=("127.0.0.1", 5001), bufsize=bs, wlog=self.wl,
-                                             store=store)
+                                             store=store, **supplied)
                 self.t.cs = self.script
                 self.t.accepted = True
                 self.t.connected = True
+
+    def refs(self):
+        """the buffers as the caller holds them: the objects handed to the constructor, else the ones the transport
+        made at construction (the http layer keeps such references: Requestant(msg=incomer.rxbs))"""
+        if not hasattr(self, "_refs"):
+            self._refs = (supplied_or(self, "txes"), supplied_or(self, "rxbs"))
+        return self._refs
 
     def live(self):
         if self.kind in SERIAL:
@@ -210,6 +225,8 @@ class Rig:
             t.serviceReceiveOnce()
         elif name == "clr":
             t.clearRxbs()
+        elif name == "cat":
+            self.ret = t.catRxbs()
         elif name == "live":
             self.set_live(bool(op[1]))
         else:
@@ -230,7 +247,12 @@ class CHECK(core.Check):
             "messages of <= 3 bytes (and 3 messages of <= 2 bytes), serviced L+1 times (L=2 quick, 4 thorough), "
             "kinds, console verbosity (mute .. profuse) and payload type (bytes / bytearray / memoryview) rotated; random: long histories, messages up to 40 bytes, scripts of up to 6 answers per feed. "
             "Non-trivial = at least one byte went through the double and some service call ended with data still "
-            "queued (partial send / would-block / loss) or delivered a chunk; distinct by the whole case. About 2% of the "
+            "queued (partial send / would-block / loss) or delivered a chunk; distinct by the whole case. Clients are "
+            "built with caller-supplied txes / rxbs on half of the cases and every buffer is observed through the reference "
+            "its owner holds (identity of .rxbs / .txes is part of the compared state); every interleaving of <= 4 (quick) / "
+            "5 (thorough) arrivals, receives, clearRxbs and catRxbs is enumerated. The exhaustive transmit cases and 30% of "
+            "the random ones end with a drain tail (the socket accepts everything, one service call per answer fed): the "
+            "deque must be empty afterwards unless the transport was cut off / disconnected / raised. About 2% of the "
             "random cases run Incomer / Client / DeviceNb over a REAL non-blocking socketpair (send buffer 2304 bytes, "
             "messages up to 12 kB, the harness plays the peer): the kernel's answers are recorded and replayed through "
             "the model, and what the peer received is compared with what was queued.")
@@ -282,11 +304,24 @@ class CHECK(core.Check):
                     kind = KINDS[i % len(KINDS)]
                     i += 1
                     ops = [["tx", D.hx(m)] for m in msgs] + [["feedtx", list(seq)]] + [["stx"]] * (ln + 1)
+                    ops += [["feedtx", ["a9"] * (ln + 2)]] + [["stx"]] * (ln + 2)      # drain tail (progress)
                     verb = (i // len(KINDS)) % 5
                     ptype = (i // (5 * len(KINDS))) % 3
                     if ptype == 2 and verb == 4:
                         ptype = 1        # the profuse console message calls .decode() on the payload: no memoryview there
-                    yield {"kind": kind, "wlog": 1, "bs": 8, "verb": verb, "ptype": ptype, "ops": ops}
+                    yield {"kind": kind, "wlog": 1, "bs": 8, "verb": verb, "ptype": ptype, "own": (i // 7) % 2,
+                           "drain": 1, "ops": ops}
+        # receive side: every interleaving of arrivals, receives, clearRxbs and catRxbs, on buffers the caller supplied
+        # (clients) or holds a reference to (incomers)
+        ralpha = [["feedrx", ["d01"]], ["feedrx", ["d0203", "d04"]], ["srx"], ["srx1"], ["clr"], ["cat"]]
+        for n in range(1, (5 if tier == "thorough" else 4) + 1):
+            for seq in itertools.product(ralpha, repeat=n):
+                if not any(o[0] in ("clr", "cat") for o in seq):
+                    continue
+                kind = ["client", "clientTls", "incomer", "incomerTls"][i % 4]
+                i += 1
+                yield {"kind": kind, "wlog": i % 2, "bs": 8, "verb": i % 5, "ptype": 0, "own": (i // 4) % 2,
+                       "ops": [list(o) for o in seq] + [["feedrx", ["d09"]], ["srx"]]}
 
     def _send_tok(self, rng, errs, maxlen):
         x = rng.random()
@@ -314,6 +349,7 @@ class CHECK(core.Check):
     def _real_case(self, rng):
         """a schedule over a real socketpair: messages larger than the send buffer force partial sends and EAGAIN"""
         ops = []
+        kind = rng.choice(["incomer", "client", "device"])
         for _ in range(rng.choice([6, 10, 16])):
             x = rng.random()
             if x < 0.25:
@@ -327,11 +363,11 @@ class CHECK(core.Check):
             elif x < 0.92:
                 ops.append(["srx" if rng.random() < 0.8 else "srx1"])
             elif x < 0.96:
-                ops.append(["clr"])
+                ops.append(["clr"] if rng.random() < 0.4 or kind == "device" else ["cat"])
             else:
                 ops.append(["peerclose"])
         ops += [["stx"], ["srx"]]
-        return {"real": 1, "kind": rng.choice(["incomer", "client", "device"]), "wlog": rng.randrange(2),
+        return {"real": 1, "kind": kind, "own": rng.randrange(2), "wlog": rng.randrange(2),
                 "bs": rng.choice([64, 1024]), "sndbuf": 2304, "verb": rng.choice([0, 2, 4]), "ptype": rng.randrange(2),
                 "ops": ops}
 
@@ -372,14 +408,19 @@ class CHECK(core.Check):
                 elif x < 0.94:
                     ops.append(["srx1"])
                 elif x < 0.97:
-                    ops.append(["clr"])
+                    ops.append(["clr"] if kind in SERIAL or rng.random() < 0.5 else ["cat"])
                 elif kind not in ("incomer", "incomerTls"):
                     ops.append(["live", rng.randrange(2)])
                 else:
                     ops.append(["stx"])
+            drain = int(rng.random() < 0.3)
+            if drain:     # progress: once the socket takes every byte offered, enough service calls empty the deque
+                fed = sum(len(op[1]) for op in ops if op[0] == "feedtx")
+                ops += [["feedtx", ["a100000"] * (fed + 2)]] + [["stx"]] * (fed + 2)
             verb = rng.randrange(5)
             ptype = rng.choice([0, 0, 1, 2]) if verb < 4 else rng.randrange(2)
-            yield {"kind": kind, "wlog": rng.randrange(2), "bs": bs, "verb": verb, "ptype": ptype, "ops": ops}
+            yield {"kind": kind, "wlog": rng.randrange(2), "bs": bs, "verb": verb, "ptype": ptype,
+                   "own": rng.randrange(2), "drain": drain, "ops": ops}
 
     # ------------------------------------------------------------------ both sides
     def requests(self, case):
@@ -404,6 +445,7 @@ class CHECK(core.Check):
 
         def run(self, op):
             rig, sc = self.rig, self.rig.script
+            rig.refs()                       # taken before the first operation
             s0, r0, ns0, nr0 = len(sc.sent), len(sc.recvd), len(sc.send_log), len(sc.recv_log)
             status = "ok"
             try:
@@ -426,9 +468,13 @@ class CHECK(core.Check):
                 recs = parse_wlog(rx_buf[self.wrx_off:], b"RX", lens)
                 dwr = "MALFORMED:" + D.hx(rx_buf[self.wrx_off:]) if recs is None else show(recs, "|")
                 self.wrx_off = len(rx_buf)
-            return "%s q=%s rx=%s cut=%d live=%d ds=%s dw=%s dr=%s dwr=%s" % (
-                status, show(list(t.txes), ","), D.hx(t.rxbs), cut, int(bool(rig.live())),
-                D.hx(sc.sent[s0:]), dw, D.hx(sc.recvd[r0:]), dwr)
+            txref, rxref = rig.refs()
+            line = "%s q=%s rx=%s cut=%d live=%d ds=%s dw=%s dr=%s dwr=%s id=%d" % (
+                status, show(list(txref), ","), D.hx(rxref), cut, int(bool(rig.live())),
+                D.hx(sc.sent[s0:]), dw, D.hx(sc.recvd[r0:]), dwr, int(t.rxbs is rxref and t.txes is txref))
+            if op is not None and op[0] == "cat" and status == "ok":
+                line += " ret=" + D.hx(rig.ret)
+            return line
 
     def model_post(self, case, replies):
         return replies + ["e2e ok"] if case.get("real") else replies
@@ -436,7 +482,7 @@ class CHECK(core.Check):
     def impl(self, case):
         if case.get("real"):
             return self._impl_real(case)
-        rig = Rig(case["kind"], case["wlog"], case["bs"], ptype=case.get("ptype", 0))
+        rig = Rig(case["kind"], case["wlog"], case["bs"], ptype=case.get("ptype", 0), own=case.get("own", 0))
         runner = self.Runner(rig)
         lines = ["ok"]
         ctx = D.patched_os(rig.script) if case["kind"] == "device" else None
@@ -481,7 +527,7 @@ class CHECK(core.Check):
                 sk.setsockopt(socket.SOL_SOCKET, socket.SO_SNDBUF, case.get("sndbuf", 2304))
             proxy = RealFd() if kind == "device" else RealSock()
             proxy.attach(a, via_fd=(kind == "device"))
-            rig = Rig(kind, case["wlog"], case["bs"], script=proxy, ptype=case.get("ptype", 0))
+            rig = Rig(kind, case["wlog"], case["bs"], script=proxy, ptype=case.get("ptype", 0), own=case.get("own", 0))
             runner = self.Runner(rig)
             lines, eops = ["ok"], []
             queued, peer_rx, peer_tx, nmsg, nchunk = b"", b"", b"", 0, 0
@@ -499,7 +545,7 @@ class CHECK(core.Check):
                         queued += m
                         eops.append(["tx", D.hx(m)])
                         lines.append(runner.run(eops[-1]))
-                    elif name in ("stx", "stx1", "srx", "srx1", "clr"):
+                    elif name in ("stx", "stx1", "srx", "srx1", "clr", "cat"):
                         nt, nr = len(proxy.tokens_tx), len(proxy.tokens_rx)
                         line = runner.run([name])
                         for feed, toks in (("feedtx", proxy.tokens_tx[nt:]), ("feedrx", proxy.tokens_rx[nr:])):
@@ -533,9 +579,9 @@ class CHECK(core.Check):
             fixed = []
             for ln, op in zip(lines[1:], eops):
                 if op[0] in ("feedtx", "feedrx"):
-                    prev = fixed[-1] if fixed else "ok q=. rx=- cut=0 live=1 ds=- dw=. dr=- dwr=."
+                    prev = fixed[-1] if fixed else "ok q=. rx=- cut=0 live=1 ds=- dw=. dr=- dwr=. id=1"
                     f = self._fields(prev)
-                    ln = "ok q=%s rx=%s cut=%s live=%s ds=- dw=. dr=- dwr=." % (f["q"], f["rx"], f["cut"], f["live"])
+                    ln = "ok q=%s rx=%s cut=%s live=%s ds=- dw=. dr=- dwr=. id=%s" % (f["q"], f["rx"], f["cut"], f["live"], f["id"])
                 fixed.append(ln)
             # end to end: what the peer got is what was queued, what the transport buffered is what the peer sent
             try:
@@ -603,8 +649,13 @@ class CHECK(core.Check):
             f = self._fields(line)
             if op[0] == "tx":
                 queued += D.unhx(op[1])
-            if op[0] == "clr":
+            if op[0] in ("clr", "cat"):
                 taken += prev_rx
+            if f.get("id") != "1":
+                return ("op %d %s: the transport no longer works on the buffer object its owner holds (.rxbs / .txes was "
+                        "rebound): received chunks are not appended to the receive buffer" % (i, op[0]))
+            if op[0] == "cat" and f["status"] == "ok" and D.unhx(f.get("ret", "-")) != prev_rx:
+                return "op %d cat: catRxbs returned %s, the buffer held %s" % (i, f.get("ret"), prev_rx.hex())
             sent += D.unhx(f["ds"])
             recvd += D.unhx(f["dr"])
             q = b"".join(self._cat(f["q"], ","))
@@ -637,6 +688,11 @@ class CHECK(core.Check):
                         % (i, op[0], taken.hex(), rx.hex(), recvd.hex()))
             if logs and wrx != recvd:
                 return "op %d %s: wire log rx records %s != received bytes %s" % (i, op[0], wrx.hex(), recvd.hex())
+        if case.get("drain") and benign and case["ops"]:
+            f = self._fields(out[-1])
+            if f["cut"] == "0" and f["live"] == "1" and f["q"] != ".":
+                return ("progress: the socket accepted every byte offered during the last %d service calls, yet %s is "
+                        "still queued" % (sum(1 for op in case["ops"][-50:] if op[0] == "stx"), f["q"][:60]))
         return None
 
     def nontrivial(self, case, out):
